@@ -194,13 +194,6 @@ where
                             num_frames.to_string(),
                         ));
 
-                        // provide Encapsulated Pixel Data Value Total Length
-                        self.put(DataElement::new(
-                            tags::ENCAPSULATED_PIXEL_DATA_VALUE_TOTAL_LENGTH,
-                            VR::UV,
-                            PrimitiveValue::from(total_pixeldata_len),
-                        ));
-
                         // try to apply operations
                         for (n, op) in ops.into_iter().enumerate() {
                             match self.apply(op) {
@@ -210,6 +203,14 @@ where
                                 }
                             }
                         }
+
+                        // provide Encapsulated Pixel Data Value Total Length
+                        // (after the operations, which only know about a single frame)
+                        self.put(DataElement::new(
+                            tags::ENCAPSULATED_PIXEL_DATA_VALUE_TOTAL_LENGTH,
+                            VR::UV,
+                            PrimitiveValue::from(total_pixeldata_len),
+                        ));
 
                         // change transfer syntax
                         self.update_meta(|meta| meta.set_transfer_syntax(ts));
@@ -357,13 +358,6 @@ where
         num_frames.to_string(),
     ));
 
-    // provide Encapsulated Pixel Data Value Total Length
-    obj.put(DataElement::new(
-        tags::ENCAPSULATED_PIXEL_DATA_VALUE_TOTAL_LENGTH,
-        VR::UV,
-        PrimitiveValue::from(total_pixeldata_len),
-    ));
-
     // try to apply operations
     for (n, op) in ops.into_iter().enumerate() {
         match obj.apply(op) {
@@ -373,6 +367,14 @@ where
             }
         }
     }
+
+    // provide Encapsulated Pixel Data Value Total Length
+    // (after the operations, which only know about a single frame)
+    obj.put(DataElement::new(
+        tags::ENCAPSULATED_PIXEL_DATA_VALUE_TOTAL_LENGTH,
+        VR::UV,
+        PrimitiveValue::from(total_pixeldata_len),
+    ));
 
     // change transfer syntax
     obj.update_meta(|meta| meta.set_transfer_syntax(ts));
